@@ -55,6 +55,7 @@ type world struct {
 	front    *httptest.Server
 	mu       sync.Mutex
 	handlers map[string]http.Handler
+	table    map[string]*script // scripts by id (concurrent stream)
 	client   *http.Client // the end client: no transparent decompression, no redirects
 	rawBE    *http.Client // gateway -> backend, compression handling disabled
 }
@@ -66,16 +67,22 @@ type gwcfg struct {
 	oe     string // json | json-collection | string | no-op
 	cc     int
 	raw    bool // gateway->backend transport with DisableCompression (backend gzip reaches lura's parser)
+	byID   bool // the endpoint forwards the query parameter id: the backend picks its script per request
 }
 
 func (g gwcfg) key() string {
-	return fmt.Sprintf("%s-%s-%v-%s-%d-%v", g.router, g.be, g.coll, g.oe, g.cc, g.raw)
+	return fmt.Sprintf("%s-%s-%v-%s-%d-%v-%v", g.router, g.be, g.coll, g.oe, g.cc, g.raw, g.byID)
 }
 
 func newWorld() *world {
-	w := &world{handlers: map[string]http.Handler{}}
+	w := &world{handlers: map[string]http.Handler{}, table: map[string]*script{}}
 	w.backend = httptest.NewServer(http.HandlerFunc(func(rw http.ResponseWriter, r *http.Request) {
 		s := w.cur.Load()
+		if id := r.URL.Query().Get("id"); id != "" {
+			w.mu.Lock()
+			s = w.table[id]
+			w.mu.Unlock()
+		}
 		w.calls.Add(1)
 		h := rw.Header()
 		hasDate := false
@@ -131,6 +138,9 @@ func (w *world) gateway(g gwcfg) string {
 	sc := config.ServiceConfig{Version: config.ConfigVersion, Timeout: 5 * time.Minute, Host: []string{w.backend.URL}}
 	ep := &config.EndpointConfig{Endpoint: "/e", Method: "GET", OutputEncoding: g.oe, ConcurrentCalls: g.cc,
 		Backend: []*config.Backend{{URLPattern: "/b", Encoding: g.be, IsCollection: g.coll}}}
+	if g.byID {
+		ep.QueryString = []string{"id"}
+	}
 	sc.Endpoints = []*config.EndpointConfig{ep}
 	if err := sc.Init(); err != nil {
 		panic(err)
@@ -188,6 +198,19 @@ func (w *world) call(g gwcfg, s *script) reply {
 	w.cur.Store(s)
 	return fetch(w.client, w.front.URL+"/e?g="+k)
 }
+
+// callID / directID: the backend plays the script registered under id (safe for concurrent use)
+func (w *world) register(id string, s *script) {
+	w.mu.Lock()
+	w.table[id] = s
+	w.mu.Unlock()
+}
+
+func (w *world) callID(g gwcfg, id string) reply {
+	return fetch(w.client, w.front.URL+"/e?g="+w.gateway(g)+"&id="+id)
+}
+
+func (w *world) directID(id string) reply { return fetch(w.client, w.backend.URL+"/b?id="+id) }
 
 // direct asks the backend itself (reference: what the backend emits on the wire)
 func (w *world) direct(s *script) reply {
